@@ -516,6 +516,20 @@ Proof.
   intro B. unfold exhausted. rewrite B. destruct (Z.ltb_spec (b - d_produced x) 1); destruct (Z.leb_spec 1 (Z.max (b - d_produced x) 0)); cbn; try reflexivity; lia.
 Qed.
 
+Lemma RJ_rewire fuel w d ups : RJ w (rewire fuel nw w d ups).
+Proof.
+  unfold rewire. set (x := getd w d). destruct (existsb (bad_up d w) ups); [Jt|].
+  match goal with |- RJ w (fold_left _ ups (updd (fold_left _ _ ?w0') d _)) => set (w0 := w0') end.
+  assert (R0 : RJ w w0).
+  { unfold w0. destruct (is_holder (d_kind x)); [|Jt]. destruct (d_wait_since x); [|Jt]. apply (RJ_dev w d (fun _ => True)); [kp|exact I]. }
+  apply (RJ_trans w w0); [exact R0|].
+  set (w1 := fold_left (fun w' u => updd w' u (t_down_del d)) (d_up x) w0).
+  apply (RJ_trans w0 w1); [unfold w1; apply RJ_fold; intros w' u; apply (RJ_dev w' u (fun _ => True)); [apply psafe_conv; intros y N; exact N|exact I]|].
+  apply (RJ_trans w1 (updd w1 d (t_up ups))); [apply (RJ_dev w1 d (fun _ => True)); [apply psafe_conv; intros y N; exact N|exact I]|].
+  apply RJ_fold. intros w' u. destruct (existsb (Z.eqb d) (d_down (getd w' u))); [Jt|].
+  apply (RJ_trans w' (updd w' u (t_down_add d))); [apply (RJ_dev w' u (fun _ => True)); [apply psafe_conv; intros y N; exact N|exact I]|apply RJ_signal].
+Qed.
+
 Lemma RJ_run_uop fuel w o : RJ w (run_uop fuel nw w o).
 Proof.
   unfold run_uop. destruct (negb (okf w)); [Jt|]. destruct o.
@@ -528,6 +542,7 @@ Proof.
     + apply RJ_one, j_budget_pass.
     + apply (RJ_dev w d (fun y => exhausted y = false)); [kp|exact X].
   - apply (RJ_dev w d (fun _ => True)); [kp|exact I].
+  - apply RJ_rewire.
   - apply RJ_rm_call.
   - apply RJ_create_wo.
 Qed.
